@@ -8,10 +8,13 @@ pub assume_specification<T, A: core::alloc::Allocator>[Vec::<T, A>::reserve_exac
     ensures final(v)@ == old(v)@;
 pub assume_specification<T, A: core::alloc::Allocator>[Vec::<T, A>::shrink_to_fit](v: &mut Vec<T, A>)
     ensures final(v)@ == old(v)@;
+// std: `min` returns the first argument unless it compares greater; `max` the second unless the first compares greater
 pub assume_specification<T: Ord>[core::cmp::max::<T>](a: T, b: T) -> (r: T)
-    ensures r == a || r == b;
+    ensures <T as vstd::std_specs::cmp::PartialOrdSpec>::obeys_partial_cmp_spec() ==> r == (if <T as vstd::std_specs::cmp::PartialOrdSpec>::partial_cmp_spec(&a, &b) == Some(core::cmp::Ordering::Greater) { a } else { b }),
+        r == a || r == b;
 pub assume_specification<T: Ord>[core::cmp::min::<T>](a: T, b: T) -> (r: T)
-    ensures r == a || r == b;
+    ensures <T as vstd::std_specs::cmp::PartialOrdSpec>::obeys_partial_cmp_spec() ==> r == (if <T as vstd::std_specs::cmp::PartialOrdSpec>::partial_cmp_spec(&a, &b) == Some(core::cmp::Ordering::Greater) { b } else { a }),
+        r == a || r == b;
 pub assume_specification<T>[core::mem::replace::<T>](dest: &mut T, src: T) -> (r: T)
     ensures r == *old(dest), *final(dest) == src;
 pub assume_specification<T>[Option::<T>::replace](o: &mut Option<T>, value: T) -> (r: Option<T>)
